@@ -8,8 +8,24 @@ import (
 	"github.com/v-byte-cpu/sx/pkg/scan"
 )
 
-func c03Subnet() *net.IPNet {
-	return &net.IPNet{IP: net.IPv4(192, 168, 0, 0).To4(), Mask: net.CIDRMask(24, 32)}
+func c03Subnet() *net.IPNet { return c03Subnets[0]() }
+
+// port shapes (run parameter PORTS); the first is the one of the quick tier
+var c03PortShapes = [][]*scan.PortRange{
+	{{StartPort: 22, EndPort: 22}, {StartPort: 80, EndPort: 80}, {StartPort: 80, EndPort: 90}, {StartPort: 88, EndPort: 95}},
+	{{StartPort: 1, EndPort: 65535}},
+	{{StartPort: 0, EndPort: 65535}},
+	{{StartPort: 0, EndPort: 0}, {StartPort: 65535, EndPort: 65535}},
+	{{StartPort: 1, EndPort: 1024}, {StartPort: 32768, EndPort: 65534}},
+	{{StartPort: 443, EndPort: 443}},
+}
+
+func c03InPorts(p uint16, rs []*scan.PortRange) bool {
+	in := false
+	for _, r := range rs {
+		in = verifOr(in, verifAnd(p >= r.StartPort, p <= r.EndPort))
+	}
+	return in
 }
 
 // VerifH_C03_tcp: filter text from the real BPFFilter / SYNACKBPFFilter, compiled by libpcap,
@@ -24,10 +40,10 @@ func VerifH_C03_tcp() {
 	tgt := verifParam("TGT", 3)
 	r := &scan.Range{}
 	if tgt&1 != 0 {
-		r.DstSubnet = c03Subnet()
+		r.DstSubnet = c03Subnets[verifParam("SUBNET", 0)]()
 	}
 	if tgt&2 != 0 {
-		r.Ports = []*scan.PortRange{{StartPort: 22, EndPort: 22}, {StartPort: 80, EndPort: 80}, {StartPort: 80, EndPort: 90}, {StartPort: 88, EndPort: 95}}
+		r.Ports = c03PortShapes[verifParam("PORTS", 0)]
 	}
 	res := &c06Results{}
 	var sm *ScanMethod
@@ -72,8 +88,8 @@ func VerifH_C03_tcp() {
 	if isTCP {
 		src := b[off+12 : off+16]
 		sport := uint16(b[t])<<8 | uint16(b[t+1])
-		inNet := tgt&1 == 0 || (src[0] == 192 && src[1] == 168 && src[2] == 0)
-		inPorts := tgt&2 == 0 || sport == 22 || (sport >= 80 && sport <= 95)
+		inNet := tgt&1 == 0 || c03InNet(src, r.DstSubnet)
+		inPorts := tgt&2 == 0 || c03InPorts(sport, r.Ports)
 		flagsOK := !syn || b[t+13] == 0x12
 		shape = inNet && inPorts && flagsOK
 		if passR {
@@ -93,5 +109,18 @@ func VerifH_C03_tcp() {
 		verifAssert(passR, "a reply-shaped frame is not reported by the processor")
 	} else {
 		verifAssert(!(passB && passR), "a frame that is not reply-shaped passes the filter and is reported")
+	}
+	if passR && isTCP {
+		// a later reply must not change the record already emitted
+		rec := res.got[0].(*ScanResult)
+		ip0, port0, flags0 := rec.IP, rec.Port, rec.Flags
+		var f2 []byte
+		if !vpn {
+			f2 = append(f2, 0x10, 0x11, 0x12, 0x13, 0x14, 0x15, 0x00, 0x0c, 0x29, 0x04, 0x05, 0x07, 0x08, 0x00)
+		}
+		f2 = append(f2, 0x45, 0, 0, 40, 0x12, 0x34, 0x40, 0, 64, 6, 0, 0, 192, 168, 0, 9, 192, 168, 0, 3,
+			0, 81, 0x80, 0x00, 0, 0, 0, 1, 0, 0, 0, 2, 0x50, 0x12, 0xff, 0xff, 0, 0, 0, 0)
+		_ = sm.ProcessPacketData(f2[:len(f2):len(f2)], nil)
+		verifAssert(rec.IP == ip0 && rec.Port == port0 && rec.Flags == flags0, "an already emitted record changed when a later frame was processed (shared storage)")
 	}
 }
